@@ -60,6 +60,7 @@ def analyse_region(model, role, fi, summ=None):
         exc_states = [cur]
         normal = []
         branch = None
+        pure_giveback = False
         for ev in evs:
             k = ev["kind"]
             if k == "CTX_UNKNOWN":
@@ -80,6 +81,7 @@ def analyse_region(model, role, fi, summ=None):
             elif k == "REMOVE":
                 res.keys.append(("REMOVE", ev["key"], node))
                 res.event_states.append(("REMOVE", cur, node))
+                pure_giveback = pure_giveback or _node_is_pure_marker_stmt(node, ev)
                 if cur != "H":
                     pending.append(("C10.own-release", "the key is removed in state %s (only its owner, state H, may remove it: a re-entrant or blind activation would drop the marker of the outer activation)" % cur, node, state))
                 exc_states.append(cur)
@@ -88,6 +90,7 @@ def analyse_region(model, role, fi, summ=None):
                     exc_states.append(cur)
             elif k == "RESTORE":
                 res.event_states.append(("RESTORE", cur, node))
+                pure_giveback = pure_giveback or _node_is_pure_marker_stmt(node, ev)
                 exc_states.append(cur)
                 if cur in ("H", "Hb"):
                     cur = "R"
@@ -111,6 +114,9 @@ def analyse_region(model, role, fi, summ=None):
             normal = [(present, "F"), (absent, "A")]
         else:
             normal = [(None, cur)]
+        if pure_giveback:
+            # the give-back statement itself (``cv.set(S)`` / ``S.discard(k)``) is taken not to fail
+            exc_states = []
         # de-duplicate
         ex = []
         for s in exc_states:
@@ -164,7 +170,7 @@ def regions(model):
     return out
 
 
-def report_rule(run, model, rule, roles=None, note_ok="no path violates the rule"):
+def report_rule(run, model, rule, roles=None, note_ok="no path violates the rule", as_rule=None):
     """Record one obligation per region for ``rule`` from the typestate results."""
     regs = regions(model)
     for role, res in regs.items():
@@ -174,12 +180,12 @@ def report_rule(run, model, rule, roles=None, note_ok="no path violates the rule
         hits = [f for f in res.findings if f[0] == rule]
         if not hits:
             n_states = sum(len(v) for v in res.prod.at_node.values())
-            run.ok(rule, res.fi.qual, "%s (%d product states explored)" % (note_ok, n_states), res.fi.loc())
+            run.ok(as_rule or rule, res.fi.qual, "%s (%d product states explored)" % (note_ok, n_states), res.fi.loc())
         for _, detail, node, state, witness in hits:
-            run.violation(rule, res.fi.qual, detail, res.fi.loc(node), witness, first_line(node.stmt) if node.stmt is not None else None)
+            run.violation(as_rule or rule, res.fi.qual, detail, res.fi.loc(node), witness, first_line(node.stmt) if node.stmt is not None else None)
 
 
-def body_rules(run, model):
+def body_rules(run, model, rule_unheld="C10.body-unheld", rule_held="C10.body-held"):
     """C10.body-unheld (checker wrappers) and the instance wrappers' obligation to hold the marker over BODY."""
     regs = regions(model)
     for role, res in regs.items():
@@ -188,7 +194,7 @@ def body_rules(run, model):
         run.saw(res.wr.flow)
         bodies = [(st, n) for k, st, n in res.event_states if k == "BODY"]
         if not bodies:
-            run.violation("C10.body-unheld" if role.startswith("checker") else "C10.body-held", res.fi.qual, "the wrapper never calls the decorated function", res.fi.loc())
+            run.violation(rule_unheld if role.startswith("checker") else rule_held, res.fi.qual, "the wrapper never calls the decorated function", res.fi.loc())
             continue
         if role.startswith("checker"):
             bad = [(st, n) for st, n in bodies if st in ("H", "Hb")]
@@ -196,7 +202,7 @@ def body_rules(run, model):
                 st, n = bad[0]
                 wit = res.prod.witness_lines(n.id, _entry_state(res, n, st))
                 run.violation(
-                    "C10.body-unheld",
+                    rule_unheld,
                     res.fi.qual,
                     "the decorated function is called while this activation holds the marker (state %s): recursive calls made by the body are silently unchecked" % st,
                     res.fi.loc(n),
@@ -204,13 +210,13 @@ def body_rules(run, model):
                     first_line(n.stmt),
                 )
             else:
-                run.ok("C10.body-unheld", res.fi.qual, "BODY occurs in states %s only" % sorted(set(st for st, _ in bodies)), res.fi.loc())
+                run.ok(rule_unheld, res.fi.qual, "BODY occurs in states %s only" % sorted(set(st for st, _ in bodies)), res.fi.loc())
         else:
             bad = [(st, n) for st, n in bodies if st in ("U", "A", "R")]
             if bad:
                 st, n = bad[0]
                 run.violation(
-                    "C10.body-held",
+                    rule_held,
                     res.fi.qual,
                     "the method/constructor body runs in state %s: the instance marker is not held, so invariants would be evaluated on the object while a public operation or its construction is in progress" % st,
                     res.fi.loc(n),
@@ -218,7 +224,7 @@ def body_rules(run, model):
                     first_line(n.stmt),
                 )
             else:
-                run.ok("C10.body-held", res.fi.qual, "BODY occurs in states %s only" % sorted(set(st for st, _ in bodies)), res.fi.loc())
+                run.ok(rule_held, res.fi.qual, "BODY occurs in states %s only" % sorted(set(st for st, _ in bodies)), res.fi.loc())
 
 
 def _entry_state(res, node, st_at_event):
@@ -228,7 +234,7 @@ def _entry_state(res, node, st_at_event):
     return sorted(states)[0] if states else st_at_event
 
 
-def key_rule(run, model):
+def key_rule(run, model, rule="C10.key"):
     """C10.key: all marker operations of a region use one key: id(<decorated function>) / id(<instance>)."""
     regs = regions(model)
     for role, res in regs.items():
@@ -241,11 +247,11 @@ def key_rule(run, model):
             if s not in [k for k, _, _ in keys]:
                 keys.append((s, kind, node))
         if not keys:
-            run.violation("C10.key", res.fi.qual, "no marker operation found in the region", res.fi.loc())
+            run.violation(rule, res.fi.qual, "no marker operation found in the region", res.fi.loc())
             continue
         if len(keys) > 1:
             run.violation(
-                "C10.key",
+                rule,
                 res.fi.qual,
                 "the marker operations use different keys: %s" % "; ".join("%s uses %s" % (k, show(t)) for t, k, _ in keys),
                 res.fi.loc(keys[1][2]),
@@ -267,7 +273,7 @@ def key_rule(run, model):
             else:
                 want = "id(<instance found in the call arguments>)"
                 ok = _is_instance_term(model, res, arg)
-        run.check(ok, "C10.key", res.fi.qual, "all %d marker operations use %s" % (len(res.keys), show(kt)), "the marker key is %s, expected %s" % (show(kt), want), res.fi.loc(keys[0][2]), None, first_line(keys[0][2].stmt))
+        run.check(ok, rule, res.fi.qual, "all %d marker operations use %s" % (len(res.keys), show(kt)), "the marker key is %s, expected %s" % (show(kt), want), res.fi.loc(keys[0][2]), None, first_line(keys[0][2].stmt))
 
 
 def _is_instance_term(model, res, t):
@@ -278,7 +284,7 @@ def _is_instance_term(model, res, t):
     return False
 
 
-def finally_clean(run, model):
+def finally_clean(run, model, rule="C11.finally-clean"):
     """C11.finally-clean: a ``finally`` contains only marker give-backs; no return/break/continue/raise."""
     regs = regions(model)
     count = 0
@@ -302,7 +308,7 @@ def finally_clean(run, model):
                         bad = (s, "statement in finally is not a marker give-back; if it raises it replaces the exception in flight")
                         break
                 if bad:
-                    run.violation("C11.finally-clean", res.fi.qual, bad[1], res.fi.loc(bad[0]), None, first_line(bad[0]))
+                    run.violation(rule, res.fi.qual, bad[1], res.fi.loc(bad[0]), None, first_line(bad[0]))
                 else:
-                    run.ok("C11.finally-clean", res.fi.qual, "finally at line %d holds %d marker give-back statement(s) only" % (st.lineno, len(st.finalbody)), res.fi.loc(st))
+                    run.ok(rule, res.fi.qual, "finally at line %d holds %d marker give-back statement(s) only" % (st.lineno, len(st.finalbody)), res.fi.loc(st))
     return count
